@@ -90,11 +90,10 @@ func sidOfText(t string, intern map[string]int) int {
 func hexName(s string) string { return hex.EncodeToString([]byte(s)) }
 
 var modelledOperators = map[string]bool{"q": true, "Q": true, "cm": true, "BT": true, "ET": true, "Tf": true, "Tc": true, "Tw": true,
-	"Tz": true, "TL": true, "Tm": true, "Td": true, "TD": true, "T*": true, "Tj": true, "'": true, "\"": true, "Do": true}
+	"Tz": true, "TL": true, "Ts": true, "Tm": true, "Td": true, "TD": true, "T*": true, "Tj": true, "TJ": true, "'": true, "\"": true, "Do": true}
 
-// operators whose case in processOperation moves text or that the parser treats specially:
-// outside the model, never generated
-var unmodelledOperators = map[string]bool{"Ts": true, "TJ": true, "BI": true, "ID": true, "EI": true}
+// operators that the parser treats specially: outside the model, never generated
+var unmodelledOperators = map[string]bool{"BI": true, "ID": true, "EI": true}
 
 func (d *describer) operand(o core.Object) string {
 	switch v := o.(type) {
@@ -106,6 +105,22 @@ func (d *describer) operand(o core.Object) string {
 		return "/" + hexName(string(v))
 	case core.String:
 		return fmt.Sprintf("s%d", sidOfText(string(v), d.strIDs))
+	case core.Array:
+		// as showTextArray reads it: strings and numbers; an element of any other type is `?`
+		parts := make([]string, len(v))
+		for i, e := range v {
+			switch x := e.(type) {
+			case core.Int:
+				parts[i] = "n" + strconv.FormatInt(int64(x), 10)
+			case core.Real:
+				parts[i] = "n" + wnum(new(big.Rat).SetFloat64(float64(x)))
+			case core.String:
+				parts[i] = fmt.Sprintf("s%d", sidOfText(string(x), d.strIDs))
+			default:
+				parts[i] = "?"
+			}
+		}
+		return "[" + strings.Join(parts, ";") + "]"
 	}
 	return "?"
 }
@@ -618,6 +633,15 @@ func (g *docGen) malformed() string {
 		func() string { return "2 Tr" },
 		func() string { return "W* n" },
 		func() string { return "/P <</MCID 1>> BDC EMC" },
+		func() string { return "TJ" },
+		func() string { return g.str() + " TJ" },
+		func() string { return "[" + g.str() + "] " + n() + " TJ" },
+		func() string { return "[" + g.str() + " /N " + n() + " [1] null " + g.str() + " true] TJ" },
+		func() string { return "[] TJ" },
+		func() string { return "[" + n() + " " + n() + "] TJ" },
+		func() string { return "Ts" },
+		func() string { return g.str() + " Ts" },
+		func() string { return n() + " " + n() + " Ts" },
 	}
 	return opts[r.Intn(len(opts))]()
 }
@@ -637,7 +661,15 @@ func (g *docGen) textBlock() string {
 	default:
 		sb.WriteString(fmt.Sprintf("%d %d Td ", r.Range(-40, 40), r.Range(-40, 40)))
 	}
-	sb.WriteString(g.str() + " Tj ")
+	if r.Chance(1, 8) {
+		sb.WriteString(fmt.Sprintf("%d Ts ", r.Range(-6, 9)))
+	}
+	if r.Chance(1, 4) {
+		// a TJ array: strings with numbers in between (under 0 Tz nothing moves)
+		sb.WriteString(fmt.Sprintf("[%s %d %s %d] TJ ", g.str(), r.Range(-500, 500), g.str(), r.Range(-90, 90)))
+	} else {
+		sb.WriteString(g.str() + " Tj ")
+	}
 	switch r.Intn(6) {
 	case 0:
 		sb.WriteString(fmt.Sprintf("%d TL T* %s Tj ", r.Range(-5, 20), g.str()))
